@@ -179,6 +179,17 @@ def paramless(t):
     return False
 
 
+def paramless_inverse(t):
+    """the same for the backward direction of a step"""
+    if t is None:
+        return True
+    if t[0] == "withinv":
+        return paramless(t[2])
+    if t[0] in ("comp", "stack"):
+        return paramless_inverse(t[1]) and paramless_inverse(t[2])
+    return paramless(t)
+
+
 def point(rng, n):
     return [C.q2w(dyadic(rng, -6, 6, 2)) for _ in range(n)]
 
